@@ -44,7 +44,7 @@ def gen(rng, tier, ds):
         for _ in range(10 if tier == "quick" else 60):
             add([wc.enc_q(0, rng.choice([None, ("U",), ("N0",), ("E", b"nosuch", b"1", 0), ("A", [("U",)])]), []) for _ in range(k)])
             add([wc.enc_q(0, probe, [b"a"])])
-    for _ in range(25 if tier == "quick" else 250):
+    for _ in range(25 if tier == "quick" else 1500):
         t = wc.rand_valid(rng, rng.choice([1, 2, 3, 4]), ds)
         for pos in list(wc.positions(t))[:40]:
             for hole in (("U",), ("N0",), ("A", []), ("O", [("U",)])):
@@ -129,7 +129,7 @@ def run(rep, scratch, tier, seed, replay=None):
         else:
             nbad += compare(rep, reqs, impl2, model2, "updog server (cache %s)" % ("on" if cache else "off"), lines, {})
     # random byte-mutated messages that the real proto.Unmarshal accepts, answered in-process
-    nfuzz, fuzz_bad = fuzz(rep, scratch, ds, idx, seed, 1500 if tier == "quick" else 20000)
+    nfuzz, fuzz_bad = fuzz(rep, scratch, ds, idx, seed, 1500 if tier == "quick" else 150000)
     nbad += fuzz_bad
     rep.coverage["fuzzed_decodable_messages"] = nfuzz
     rep.coverage.update({
